@@ -622,7 +622,7 @@ func (in *ImplInst) describeDst() string {
 func (in *ImplInst) CheckDst(label string) []engine.Div {
 	s := in.cur
 	tree, _ := Walk(in.inner, nil)
-	var bad []string
+	var bad, foreign []string
 	seen := map[string]bool{}
 	s.F("dst").Pairs(func(k, v *tla.Value) {
 		if k.K != tla.Seq && k.K != tla.Str {
@@ -656,7 +656,11 @@ func (in *ImplInst) CheckDst(label string) []engine.Div {
 					hi = lo
 				}
 			}
-			if len(g.Data) < lo || len(g.Data) > hi || !bytes.Equal(g.Data, full[:len(g.Data)]) {
+			if len(g.Data) <= len(full) && !bytes.Equal(g.Data, full[:len(g.Data)]) {
+				// not a prefix of the entry's own content: no schedule of the writers explains bytes of another entry
+				// (or garbage) in this file - a defect, not drift of the step model
+				foreign = append(foreign, fmt.Sprintf("%s holds %d bytes that are not a prefix of its entry's content", p, len(g.Data)))
+			} else if len(g.Data) < lo || len(g.Data) > hi {
 				bad = append(bad, fmt.Sprintf("data %s real %d bytes, model %d..%d", p, len(g.Data), lo, hi))
 			}
 		}
@@ -665,6 +669,12 @@ func (in *ImplInst) CheckDst(label string) []engine.Div {
 		if !seen[p] {
 			bad = append(bad, "extra "+p)
 		}
+	}
+	if len(foreign) > 0 {
+		sort.Strings(foreign)
+		d := strings.Join(foreign, "; ") + " | real: " + Describe(tree)
+		return []engine.Div{{Prop: in.ad.PropC13, Sig: "tarimpl " + label + " dest foreign-bytes", Detail: d},
+			{Prop: in.ad.PropC12, Sig: "tarimpl " + label + " dest foreign-bytes", Detail: d}}
 	}
 	if len(bad) == 0 {
 		return nil
